@@ -19,7 +19,7 @@ RULE = ("cases: standard long-term parameter sets of bign (3 levels), bign96, g1
         "stb99/pfok seeds (standard, default, maximal, random valid chains, one element off); bign/bign96 public keys (kG, -kG, x or y >= p, (0,0), twist points, bit flips, random) and key pairs "
         "(d in {0,1,q-1,q,q+1,2^2l-1,random}, Q = dG / altered); all 11^6 date tuples with octets 0..10 + random octets; priIsPrimeW on [0,2^20) and windows at 2^16, 2^31, 2^32, the base-switch limits, 2^64-2^16, "
         "priNextPrimeW on [0,2^16) and around every 2^l; priIsPrime/priRMTest/priIsSieved on Carmichael numbers, strong pseudoprimes (psi_k, spsp(2,3,5,7)), semiprimes of 64..256-bit primes, the curves' p and q, "
-        "Mersenne numbers, random odd numbers; priNextPrime with trials/base_count/iter variations incl. a just below 2^l; belsValM on random/odd-weight/product/searched-irreducible polynomials of degree 128/192/256. "
+        "Mersenne numbers, random odd numbers; priNextPrime with trials/base_count/iter variations incl. a just below 2^l; belsValM on random/odd-weight/product/searched-irreducible polynomials of degree 128/192/256; ec2IsSafeGroup on group orders (listed and small primes, composites, 2^m) with the MOV threshold at the embedding degree and one off; partly filled seed chains. "
         "non-trivial: an altered parameter set or seed, a boundary/off-curve/twist key, d in {0,1,q-1,q,q+1}, a pseudoprime/semiprime/boundary window, a non-standard polynomial; distinct by (scheme, set, alteration, field, position class)")
 LEVEL = "exploration"
 ASSUMPTIONS = ["pyref params_val/pubkey_val/keypair_val models are faithful transcriptions of the condition lists (validated on the standard sets)",
@@ -1155,6 +1155,11 @@ def make_chain(spec, first, size, plus4, seed):
         return [0] * size
     if k == "default":
         return default_chain(first, size)
+    if k == "late":
+        # a partly filled chain: zero in front, one entry somewhere behind (not "all zero", so no defaults; not a valid chain either)
+        ch = [0] * size
+        ch[min(size - 1, 1 + spec["pos"] % max(1, size - 1))] = [17, 33, 1 << 16, 1 << 32, 1 << 48, first or 5][spec["delta"] % 6]
+        return ch
     rnd = random.Random(seed)
     ch = [first]
     while ch[-1] > 32 and len(ch) < size:
@@ -1246,7 +1251,7 @@ def run_seed(ctx, c):
     ctx.sample(c)
 
 
-_CH = st.fixed_dictionaries({"k": st.sampled_from(["default", "default", "max", "min", "rnd", "rnd", "mut", "mut", "tail", "zero", "huge"]), "pos": st.integers(0, 19), "delta": st.sampled_from([-3, -2, -1, 1, 2, 3, 4, 5])})
+_CH = st.fixed_dictionaries({"k": st.sampled_from(["default", "default", "max", "min", "rnd", "rnd", "mut", "mut", "tail", "zero", "huge", "late"]), "pos": st.integers(0, 19), "delta": st.sampled_from([-3, -2, -1, 1, 2, 3, 4, 5])})
 S_SEED = st.fixed_dictionaries({
     "sch": st.sampled_from(["stb99", "stb99", "pfok"]), "li": st.integers(0, 43), "zi": st.sampled_from(["default", "default", "rnd", "zero", "one0", "top", "over"]), "pos": st.integers(0, 400),
     "d0": st.sampled_from(["std", "std", "rnd", "rnd", "lo", "lo-", "hi", "hi+", "slack", "slack+"]), "r0": st.sampled_from([0, 0, 0, 0, 0, 1, -1]), "ch": st.lists(_CH, min_size=2, max_size=2),
@@ -1401,10 +1406,91 @@ S_ALG = st.fixed_dictionaries({"kind": st.sampled_from(["gf2", "gf2", "ecp"]), "
                                "l1": st.integers(0, 100000), "known": st.booleans()})
 
 
+# ---------------------------------------------------------------------------------------------------------------------
+# ec2IsSafeGroup (the MOV / Semaev / primality conditions dstuParamsVal rests on): ec2.h "ec->order -- простое; ec->order != 2^m; ec->order не делит
+# числа 2^{mi} - 1, i <= mov_threshold".  The group order is set freely (only the order and the field are read), so the decision boundary
+# "embedding degree == threshold" is reached with small primes whose multiplicative order of 2^m is computed here by counting.
+SAFE_FIELDS = [(65, (65, 18, 0, 0)), (97, (97, 6, 0, 0)), (127, (127, 1, 0, 0)), (131, (131, 8, 3, 2)), (163, (163, 7, 6, 3))]
+SAFE_Q = [65537, 257, 17, 5, 3, 8191, 131071, 524287, 2147483647, (1 << 61) - 1, (1 << 89) - 1, 641, 6700417, 274177, 67280421310721, 2 ** 64 - 59, 2 ** 64 + 13, 4294967311]
+
+
+def _is_prime(n):
+    if n < 2:
+        return False
+    for p_ in (2, 3, 5, 7, 11, 13, 17, 19, 23, 29, 31, 37):
+        if n % p_ == 0:
+            return n == p_
+    d, r = n - 1, 0
+    while d % 2 == 0:
+        d //= 2; r += 1
+    for a in (2, 3, 5, 7, 11, 13, 17, 19, 23, 29, 31, 37):
+        v = pow(a, d, n)
+        if v in (1, n - 1):
+            continue
+        for _ in range(r - 1):
+            v = v * v % n
+            if v == n - 1:
+                break
+        else:
+            return False
+    return True
+
+
+def run_safe_group(ctx, c):
+    x = ctx.x
+    from props.c06 import mk_curve_2, stack
+    m, pp = SAFE_FIELDS[c["f"] % len(SAFE_FIELDS)]
+    if c["qk"] == "list":
+        q = SAFE_Q[c["q"] % len(SAFE_Q)]
+    elif c["qk"] == "small":
+        q = 3 + 2 * (c["q"] % 3000)
+        while not _is_prime(q):
+            q += 2
+    elif c["qk"] == "comp":
+        q = (3 + 2 * (c["q"] % 500)) * (5 + 2 * (c["q"] % 37))
+    else:
+        q = 1 << m                                  # Semaev condition
+    t = pow(2, m, q)
+    k, v = None, t
+    for i in range(1, 5000):                        # embedding degree (order of 2^m modulo q), if below the search bound
+        if v == 1:
+            k = i; break
+        v = v * t % q
+    thr = {"k": k, "k-1": (k or 3) - 1, "k+1": (k or 3) + 1, "32": 32, "1": 1, "0": 0, "2": 2}[c["thr"]]
+    if thr is None:
+        thr = 32
+    thr = max(0, min(thr, 5001))
+    cur = mk_curve_2(x, m, pp, 1, 1)
+    if cur is None:
+        ctx.cls("field_not_admitted_at_this_word_size")     # gf2Create admits only m - k >= B_PER_W
+        return
+    E, F, no, n = cur
+    ob = q.to_bytes((q.bit_length() + 7) // 8, "little")
+    fdeep = x.call("x_qr_deep", F, ret="z")
+    if not x.call("ecCreateGroup", E, x.buf(bytes(no)), x.buf((1).to_bytes(no, "little")), x.buf(ob), len(ob), 2, stack(x, "ecCreateGroup_deep", fdeep)):
+        raise Fail("ecCreateGroup failed")
+    r = x.call("ec2IsSafeGroup", E, thr, stack(x, "ec2IsSafeGroup_deep", n))
+    want = _is_prime(q) and q != 1 << m and not (k is not None and k <= thr)
+    if bool(r) != want:
+        raise Fail("ec2IsSafeGroup(order %d over GF(2^%d), MOV threshold %d) = %d; the order is %s, 2^%d has order %s modulo it: the conditions of ec2.h say %s" %
+                   (q, m, thr, r, "prime" if _is_prime(q) else "composite", m, k if k else ">= 5000", "safe" if want else "not safe"))
+    ctx.cls("safe_" + c["qk"], "thr_" + c["thr"], "want_%d" % want)
+    if k is not None and abs(thr - k) <= 1:
+        ctx.nontrivial("mov_boundary", m, q, thr - k)
+    elif not want:
+        ctx.nontrivial("unsafe", c["qk"], m)
+    ctx.sample(c)
+
+
+S_SAFE = st.fixed_dictionaries({"f": st.integers(0, 4), "qk": st.sampled_from(["list", "list", "small", "small", "comp", "semaev"]), "q": st.integers(0, 100000),
+                                "thr": st.sampled_from(["k", "k", "k-1", "k+1", "32", "1", "0", "2"])})
+
+
 def tests(tier):
     q = tier == "quick"
     return [
         Test("algebra_valid", S_ALG, run_algebra_valid, {"quick": 1500, "thorough": 30000}, ("asan", "w32")),
+        Test("safe_group", S_SAFE, run_safe_group, {"quick": 1200, "thorough": 24000}, ("asan", "w32")),
         Sweep("dates", sweep_dates, 8, CFG),
         Test("dates_rnd", S_DATE, run_date, {"quick": 2000, "thorough": 40000}, CFG),
         Sweep("primes_w", sweep_primes_w, 8, CFG),
